@@ -375,6 +375,10 @@ func (a *AggregationProcess) addOrUpdateRecordInMap(flowKey *FlowKey, record ent
 			if err = a.aggregateRecords(record, aggregationRecord.Record, true, true); err != nil {
 				return err
 			}
+			// The existing record may be waiting for the record from the other node
+			// (which reported the flow first, and could not know that it is denied
+			// here). No correlation is going to happen: the flow can be sent.
+			aggregationRecord.ReadyToSend = true
 		}
 		// Reset the inactive expiry time in the queue item with updated aggregate
 		// record.
